@@ -565,6 +565,21 @@ func VH03c_queued() {
 	if be {
 		verif.Assert(c2.SetOption(mangos.OptionBestEffort, true) == nil, lab+"/set-best-effort")
 	}
+	if verif.Choice("earlier-exchange", 2) == 1 {
+		// the context that will have to wait has used this connection before
+		verif.Assert(c2.Send([]byte{'E'}) == nil, lab+"/send-E")
+		verif.Quiesce()
+		idE, okE := findID(pipes, 'E')
+		verif.Assert(okE, lab+"/E-not-transmitted")
+		if !okE {
+			return
+		}
+		p0.Deliver([]byte{byte(idE >> 24), byte(idE >> 16), byte(idE >> 8), byte(idE), 'e'})
+		verif.Quiesce()
+		me, ee := c2.RecvMsg()
+		verif.Assert(ee == nil && len(me.Body) == 1 && me.Body[0] == 'e', lab+"/earlier-exchange")
+		verif.Reach("earlier-exchange")
+	}
 	// the connection is busy: A is handed to it and stalls there
 	p0.SendMode = vt.SendBlock
 	verif.Assert(c1.Send([]byte{'A'}) == nil, lab+"/send-A")
@@ -593,10 +608,19 @@ func VH03c_queued() {
 	} else {
 		verif.Assert(!gB.Done(), lab+"/blocking-send-completed-by-an-incoming-frame")
 	}
-	// the connection becomes ready
-	p0.SendMode = vt.SendOK
-	p0.Release()
-	verif.Quiesce()
+	if verif.Choice("busy-connection-dies", 2) == 1 {
+		// the busy connection goes away with A's write unfinished; another peer connects: the waiting request goes there
+		p0.Drop()
+		verif.Quiesce()
+		p0 = side.Peer("p1")
+		pipes = append(pipes, p0)
+		verif.Reach("busy-connection-died")
+	} else {
+		// the connection becomes ready
+		p0.SendMode = vt.SendOK
+		p0.Release()
+		verif.Quiesce()
+	}
 	verif.Assert(gB.Done() && errB == nil, lab+"/send-B-not-completed-with-ready-peer")
 	idB, okB := findID(pipes, 'B')
 	verif.Assert(okB, lab+"/queued-request-never-transmitted")
@@ -873,5 +897,236 @@ func VH04d_retry_change() {
 		verif.Assert(len(p1.Sent) == 0, lab+"/retry-timer-fired-although-retries-are-off")
 		verif.Reach("cancelled-after-disabling-retries")
 	}
+	sock.Close()
+}
+
+// VH03g_burst: K of {a Send; another Send from a second goroutine; a pending
+// timer fires; a peer connects; a reply to a request that is on the wire
+// arrives; the connected peer goes away; a Recv} happen to one REQ socket or
+// context at the same moment or in quick succession, with 0..1 peer connected,
+// a send deadline and a retry time set or not, and a request already
+// outstanding (transmitted, or still waiting for a peer) or not -- under every
+// schedule in which one goroutine stalls at one synchronisation point until
+// the others are at rest, or across the following steps. During the burst only
+// what holds for every order is checked (a delivered reply carries the id of a
+// request of this context; nothing is delivered twice). Afterwards a fresh
+// request behaves as if nothing had happened: replies to any earlier request
+// are never delivered for it, its own reply is, exactly once.
+func VH03g_burst() {
+	K := verif.Param("K", 2)
+	lab := "C03/burst"
+	sock := vp.New("req")
+	side := vt.Listen(sock, "a")
+	r := &rctx{name: "sock", sock: sock}
+	var setopt func(string, interface{}) error = sock.SetOption
+	api := verif.Param("api", -1)
+	if api < 0 {
+		api = verif.Choice("api", 2)
+	}
+	if api == 1 {
+		c, err := sock.OpenContext()
+		verif.Assert(err == nil, lab+"/open-context")
+		r = &rctx{name: "ctx", c: c}
+		setopt = c.SetOption
+	}
+	sdl := verif.Choice("send-deadline", 2) == 1
+	if sdl {
+		verif.Assert(setopt(mangos.OptionSendDeadline, time.Second) == nil, lab+"/set-send-deadline")
+	}
+	retry := time.Duration(0)
+	if verif.Choice("retry", 2) == 1 {
+		retry = 500 * time.Millisecond
+	}
+	verif.Assert(setopt(mangos.OptionRetryTime, retry) == nil, lab+"/set-retry")
+	var pipes []*vt.Pipe
+	if verif.Choice("peers0", 2) == 1 {
+		pipes = append(pipes, side.Peer("p0"))
+	}
+	type srec struct {
+		g   *verif.G
+		err error
+		tag byte
+	}
+	var sends []*srec
+	doSend := func(tag byte) {
+		s := &srec{tag: tag}
+		sends = append(sends, s)
+		s.g = verif.Go("send-"+string(rune(tag)), func() { s.err = r.send([]byte{tag}) })
+	}
+	if verif.Choice("pre", 2) == 1 {
+		doSend('A')
+		verif.Quiesce()
+	}
+	type rrec struct {
+		g   *verif.G
+		m   *mangos.Message
+		err error
+	}
+	var recvs []*rrec
+	delivered := map[byte]uint32{} // reply tag -> request id it answers
+	rtag := byte('a')
+	open := func() *vt.Pipe {
+		for _, p := range pipes {
+			if !p.Closed {
+				return p
+			}
+		}
+		return nil
+	}
+	wireIDs := func() map[uint32]byte {
+		ids := map[uint32]byte{}
+		for _, p := range pipes {
+			for _, x := range p.Sent {
+				verif.Assert(len(x.H) == 4 && len(x.B) == 1, lab+"/request-frame-shape")
+				if len(x.H) == 4 && len(x.B) == 1 {
+					id := be32(x.H)
+					verif.Assert(id&0x80000000 != 0, lab+"/request-id-top-bit")
+					if t, ok := ids[id]; ok {
+						verif.Assert(t == x.B[0], lab+"/one-id-for-two-requests")
+					}
+					ids[id] = x.B[0]
+				}
+			}
+		}
+		return ids
+	}
+	last := -1
+	for k := 0; k < K; k++ {
+		ev := verif.Choice("ev", 7)
+		verif.Assume(ev > last || ev == 3) // an unordered set of events (connections may repeat)
+		if ev != 3 {
+			last = ev
+		}
+		switch ev {
+		case 0:
+			doSend('B')
+		case 1:
+			doSend('C')
+		case 2:
+			verif.Assume(verif.PendingTimers() > 0)
+			verif.FireTimerNow()
+		case 3:
+			verif.Assume(len(pipes) < 2)
+			pipes = append(pipes, side.L.Connect("q"+string(rune('0'+len(pipes)))))
+		case 4:
+			p := open()
+			verif.Assume(p != nil)
+			var id uint32
+			found := false
+			for _, q := range pipes {
+				if n := len(q.Sent); n > 0 && len(q.Sent[n-1].H) == 4 {
+					id, found = be32(q.Sent[n-1].H), true
+				}
+			}
+			verif.Assume(found)
+			delivered[rtag] = id
+			p.Deliver([]byte{byte(id >> 24), byte(id >> 16), byte(id >> 8), byte(id), rtag})
+			rtag++
+		case 5:
+			p := open()
+			verif.Assume(p != nil)
+			p.Drop()
+		case 6:
+			x := &rrec{}
+			recvs = append(recvs, x)
+			x.g = verif.Go("recv", func() { x.m, x.err = r.recvMsg() })
+		}
+		if verif.Choice("settle", 2) == 1 {
+			verif.QuiesceKeep()
+		}
+	}
+	verif.Quiesce()
+	ids := wireIDs()
+	seen := map[byte]bool{}
+	for _, x := range recvs {
+		if !x.g.Done() || x.err != nil {
+			continue
+		}
+		bd := x.m.Body
+		ok := len(bd) == 1
+		if ok {
+			_, ok = delivered[bd[0]]
+		}
+		verif.Assert(ok, lab+"/delivered-message-is-not-a-reply-that-arrived")
+		if ok {
+			verif.Assert(!seen[bd[0]], lab+"/reply-delivered-twice")
+			seen[bd[0]] = true
+			_, mine := ids[delivered[bd[0]]]
+			verif.Assert(mine, lab+"/delivered-reply-answers-no-request-of-this-socket")
+		}
+	}
+	for _, s := range sends {
+		if s.g.Done() {
+			verif.Assert(s.err == nil || (sdl && s.err == mangos.ErrSendTimeout), lab+"/unexpected-send-error")
+		}
+	}
+	verif.Reach("burst-done")
+	if sdl && open() == nil {
+		// nobody to send to: every Send still waiting gives up when its deadline passes
+		for i := 0; i < 6 && verif.PendingTimers() > 0; i++ {
+			verif.FireTimer()
+		}
+		for _, s := range sends {
+			verif.Assert(s.g.Done(), lab+"/send-blocked-past-its-deadline")
+		}
+		verif.Reach("deadlines-ran-out")
+	}
+	// epilogue
+	p := open()
+	if p == nil {
+		verif.Assume(len(pipes) < 3)
+		p = side.Peer("late")
+		pipes = append(pipes, p)
+		verif.Assert(!p.Closed, lab+"/late-peer")
+	}
+	doSend('D')
+	verif.Quiesce()
+	for _, s := range sends {
+		verif.Assert(s.g.Done(), lab+"/send-still-blocked-although-a-peer-is-ready-and-a-newer-send-was-accepted")
+	}
+	d := sends[len(sends)-1]
+	verif.Assert(d.err == nil, lab+"/fresh-send-failed")
+	if !d.g.Done() || d.err != nil {
+		return
+	}
+	for _, x := range recvs {
+		verif.Assert(x.g.Done(), lab+"/recv-of-a-superseded-request-still-blocked")
+	}
+	ids = wireIDs()
+	var idD uint32
+	nD := 0
+	for id, t := range ids {
+		if t == 'D' {
+			idD = id
+			nD++
+		}
+	}
+	verif.Assert(nD == 1, lab+"/fresh-request-not-on-the-wire-under-one-id")
+	if nD != 1 {
+		return
+	}
+	var m *mangos.Message
+	var rerr error
+	rg := verif.Go("recv-D", func() { m, rerr = r.recvMsg() })
+	verif.Quiesce()
+	for id, t := range ids {
+		if t != 'D' {
+			p.Deliver([]byte{byte(id >> 24), byte(id >> 16), byte(id >> 8), byte(id), 'z'})
+		}
+	}
+	verif.Quiesce()
+	verif.Assert(!rg.Done(), lab+"/reply-to-an-earlier-request-delivered-for-the-fresh-one")
+	if rg.Done() {
+		return
+	}
+	p.Deliver([]byte{byte(idD >> 24), byte(idD >> 16), byte(idD >> 8), byte(idD), 'd'})
+	verif.Quiesce()
+	verif.Assert(rg.Done() && rerr == nil, lab+"/reply-to-the-fresh-request-not-delivered")
+	if rg.Done() && rerr == nil {
+		verif.Assert(len(m.Body) == 1 && m.Body[0] == 'd', lab+"/wrong-reply-delivered")
+	}
+	_, e2 := r.recvMsg()
+	verif.Assert(e2 == mangos.ErrProtoState, lab+"/second-recv-without-request")
+	verif.Reach("burst-epilogue")
 	sock.Close()
 }
